@@ -25,6 +25,7 @@ import (
 	"perun.network/go-perun/channel"
 	"perun.network/go-perun/channel/multi"
 	"perun.network/go-perun/log"
+	"perun.network/go-perun/simhook"
 	"perun.network/go-perun/wallet"
 	"perun.network/go-perun/wire"
 	pcontext "polycry.pt/poly-go/context"
@@ -244,6 +245,7 @@ func (c *Client) handleChannelProposal(handler ProposalHandler, p map[wallet.Bac
 		return
 	}
 	defer c.cleanupChannelOpening(req, ourIdx)
+	simhook.Yield("client.handleChannelProposal.beforeValidate")
 
 	if err := c.validTwoPartyProposal(req, ourIdx, p); err != nil {
 		c.logPeer(p).Debugf("received invalid channel proposal: %v", err)
